@@ -16,7 +16,10 @@ Static clauses decided (necessary conditions of C31):
  INCLUDE Database.to_json reports every attribute the caller lists in include= (unless excluded): lazy attributes and collections are
          skipped only when they were not asked for.
  PICKLE  Entity.__reduce__ refuses deleted, created and modified objects before building the state (only database-backed
-         state is pickled) and hands it to unpickle_entity, which goes through the identity map and _db_set_.
+         state is pickled); its reduce value names a module-level function that goes through the identity map, and the attribute
+         values are applied with _db_set_ (by that function, or by __setstate__ in the three-element form).
+ CYCLE   related objects are not inside the *arguments* of the reduce value (pickle writes those before it memoises the object,
+         so objects that refer to each other would recurse until RecursionError): they travel in the state element, or as keys.
  MIX     a Bag refuses objects of another database or another session.
 """
 NOT_DECIDED = "value equality after unpickling; JSON encoding of every attribute type"
